@@ -52,6 +52,30 @@ type MeshCfg struct {
 	// Mat: 0 none, 1 one range whose material has a colour texture URI, 2 two ranges (plain, textured),
 	// 3 one range with a nil material
 	Mat int `json:"mat,omitempty"`
+	// Gen/N describe a size-ladder mesh compactly (Topo, V and Idx are derived, never stored):
+	//   cloud  N vertices, identity indices
+	//   strip  N triangles over N+2 welded vertices, triangle f = (f+2, f, f+1)
+	Gen string `json:"gen,omitempty"`
+	N   int    `json:"n,omitempty"`
+}
+
+// resolved fills in topology, vertex count and index array of a generated (size-ladder) mesh.
+func (mc MeshCfg) resolved() MeshCfg {
+	switch mc.Gen {
+	case "cloud":
+		mc.Topo, mc.V = "point", mc.N
+		mc.Idx = make([]int, mc.N)
+		for i := range mc.Idx {
+			mc.Idx[i] = i
+		}
+	case "strip":
+		mc.Topo, mc.V = "tri", mc.N+2
+		mc.Idx = make([]int, 0, 3*mc.N)
+		for f := 0; f < mc.N; f++ {
+			mc.Idx = append(mc.Idx, f+2, f, f+1)
+		}
+	}
+	return mc
 }
 
 // WProp is one custom property writer.
@@ -95,6 +119,16 @@ var genPattern = []float64{0.1, -0.75, 0.25, 1.0 / 3, 0.7, -0.2}
 func Value(class, name string, i, c int) float64 {
 	a := attrSalt(name)
 	switch class {
+	case "lunit":
+		// 8-bit friendly values whose components run with the pairwise coprime periods 251, 241, 239,
+		// 233: the tuple identifies the vertex up to 251·241·239 and has no power-of-two period
+		p := [4]int{251, 241, 239, 233}[c%4]
+		k := (7 + 3*a + i*(61+2*c)) % p
+		v := float64(k) / 255
+		if (i+c)%2 == 1 {
+			v = (float64(k) + 0.3) / 255
+		}
+		return v
 	case "unit", "oor":
 		k := (17 + 61*i + 29*c + 7*a) % 256
 		v := float64(k) / 255
@@ -485,10 +519,14 @@ attrs:
 // shapeClass: vertex properties are stored per vertex, so only the topology is part of their input
 // class; face lists and structural differences depend on the index structure as well.
 func (d *diff) shapeClass(mc MeshCfg) string {
+	s := mc.shapeClass()
 	if d.exp != nil && d.exp.kind != "face-texcoord-list" {
-		return mc.Topo
+		s = mc.Topo
 	}
-	return mc.shapeClass()
+	if mc.Gen != "" {
+		s += "/size-ladder" // sizes beyond the small scopes are their own input class
+	}
+	return s
 }
 
 func (d *diff) attrClass() string {
@@ -536,7 +574,7 @@ func alarmed(cs Case) (bool, string, string) {
 	}
 	// an attribute stored in 8 bits must lie in [0,1]
 	for _, e := range expectations(cs) {
-		if e.typ == "uchar" && e.class != "unit" {
+		if e.typ == "uchar" && e.class != "unit" && e.class != "lunit" {
 			return false, "reported/out-of-range-colour", "8-bit storage of values outside [0,1] (ascii clamps, binary wraps): outside the stated precondition; run and counted, never alarmed"
 		}
 	}
@@ -561,14 +599,19 @@ func (k checker) eval(cs Case) {
 		scope = rscope
 		c.ReportedOnly(scope, rnote)
 	}
+	compact := cs // what is recorded for replay: generated meshes stay (kind, n)
+	cs.Mesh = cs.Mesh.resolved()
 	shape := cs.Mesh.shapeClass()
+	if cs.Mesh.Gen != "" {
+		shape += "/size-ladder"
+	}
 	exps := expectations(cs)
 	orig := plyref.CornersOf(cs.Mesh.Build())
 	violate := func(site, clause, class, detail string) {
 		if !isAlarmed {
 			return
 		}
-		c.Violate(core.Violation{Site: site, Clause: clause, Class: class, Detail: detail + " | " + describe(cs), Case: cs})
+		c.Violate(core.Violation{Site: site, Clause: clause, Class: class, Detail: detail + " | " + describe(cs), Case: compact})
 	}
 	var res [3]rt
 	for fi, f := range formats {
@@ -662,9 +705,9 @@ func (k checker) eval(cs Case) {
 		}
 	}
 	if isAlarmed && orig.N > 0 && len(cs.Mesh.Attrs) > 0 {
-		c.Nontrivial(caseKey(cs))
+		c.Nontrivial(caseKey(compact))
 	}
-	c.Sample(scope, cs)
+	c.Sample(scope, compact)
 }
 
 // crossCompare: little vs big must agree exactly (the same numbers in another byte order); ascii
@@ -709,6 +752,9 @@ func describe(cs Case) string {
 	var as []string
 	for _, a := range cs.Mesh.Attrs {
 		as = append(as, fmt.Sprintf("%s/%d:%s", a.Name, a.W, a.Val))
+	}
+	if cs.Mesh.Gen != "" {
+		return fmt.Sprintf("size-ladder mesh %s n=%d (%s, %d vertices) attrs=[%s] writer=%s", cs.Mesh.Gen, cs.Mesh.N, cs.Mesh.Topo, cs.Mesh.V, strings.Join(as, " "), cs.W.Label)
 	}
 	return fmt.Sprintf("mesh %s v=%d idx=%v attrs=[%s] mat=%d writer=%s", cs.Mesh.Topo, cs.Mesh.V, cs.Mesh.Idx, strings.Join(as, " "), cs.Mesh.Mat, cs.W.Label)
 }
@@ -796,6 +842,9 @@ func run(c *core.Ctx) {
 	// ---- scope D: materials (the writer adds a TextureFile comment to the header) -----------------
 	k.materials(next)
 
+	// ---- scope L: size ladder (element counts around every power of two) -------------------------
+	k.ladder(next)
+
 	// ---- scope B: every mesh of S_mesh(4,2) with three attribute mixes ----------------------------
 	k.smesh(next)
 }
@@ -839,6 +888,41 @@ func (k checker) smesh(next func() bool) {
 		return true
 	})
 	c.Bound("B.meshes_per_mix", n)
+}
+
+// ladder: thresholds a change may introduce (block sizes, chunked decoding) lie far above the small
+// scopes, so element counts 2^k-1, 2^k, 2^k+1 and one in between are run for k = 2..15 (thorough
+// 2..17): point clouds with n vertices and welded triangle strips with n faces in a non-identity
+// index order, with and without TexCoord, Normal + Color + one user scalar, default writer, all
+// three encodings, the same three oracle clauses. Values are vertex-unique and have no
+// power-of-two period, so a block boundary cannot hide behind equal records.
+func (k checker) ladder(next func() bool) {
+	c := k.c
+	kmax := 15
+	if c.Thorough() {
+		kmax = 17
+	}
+	sizes := plyref.Ladder(2, kmax)
+	c.Bound("L.size_ladder", fmt.Sprintf("2^k-1, 2^k, 2^k+1, 3*2^(k-1)+1 for k=2..%d (%d sizes, largest %d)", kmax, len(sizes), sizes[len(sizes)-1]))
+	base := []AttrCfg{{"Position", 3, "gen"}, {"Normal", 3, "gen"}, {"Color", 3, "lunit"}, {"Intensity", 1, "gen"}}
+	w := WCfg{Kind: "default", Label: "default(ply.Write)"}
+	for _, n := range sizes {
+		for _, gen := range []string{"cloud", "strip"} {
+			for _, tex := range []bool{false, true} {
+				if c.Expired() {
+					return
+				}
+				if !next() {
+					continue
+				}
+				attrs := append([]AttrCfg{}, base...)
+				if tex {
+					attrs = append(attrs, AttrCfg{"TexCoord", 2, "gen"})
+				}
+				k.eval(Case{Scope: "L/size-ladder/" + gen, Mesh: MeshCfg{Gen: gen, N: n, Attrs: attrs}, W: w})
+			}
+		}
+	}
 }
 
 func (k checker) customTypes(next func() bool) {
